@@ -292,6 +292,33 @@ func indTrieUnit(c *core.Ctx, e *cat.Ind, cfg []float64, prop string) {
 				cs.Want = refWant(refs, w)
 				c.Fail(key, label+" input "+fmtCols(nd.in)+": "+msg, cs)
 			}
+			// the values are a function of the input values alone: a caller that hands Compute a buffered channel (an
+			// application's feed, another helper's output) gets the same numbers. Every fourth deepest node and the long
+			// series are run again on input channels of capacity 1, 3 (and 2 for the long series).
+			if (nlen == n && nodes%4 == 0) || nlen > n {
+				caps := []int{1, 3}
+				if nlen > n {
+					caps = []int{2}
+				}
+				for _, capacity := range caps {
+					r2 := RunInd(e.New(cfg), nd.in, capacity, mc.Options{})
+					c.Executions++
+					c.Transitions += int64(r2.Res.Events)
+					if !r2.Healthy() {
+						continue // left to C03 (which explores the capacities for termination)
+					}
+					for j := range r.Outs {
+						same := j < len(r2.Outs) && len(r.Outs[j]) == len(r2.Outs[j])
+						for i2 := 0; same && i2 < len(r.Outs[j]); i2++ {
+							same = bitsEq(r.Outs[j][i2], r2.Outs[j][i2])
+						}
+						if !same {
+							c.Fail("", fmt.Sprintf("%s input %s: output %d is %s when the input channels are unbuffered but %s when they have capacity %d", label, fmtCols(nd.in), j, fmtF(head(r.Outs[j], 12)), fmtF(head(at2(r2.Outs, j), 12)), capacity), mk())
+							break
+						}
+					}
+				}
+			}
 		case "C04":
 			if parent == nil || !parent.run.Healthy() {
 				return
@@ -418,21 +445,32 @@ func indTrieUnit(c *core.Ctx, e *cat.Ind, cfg []float64, prop string) {
 		if c.Thorough() {
 			minLen = 20000
 		}
-		word, order := deBruijn(len(lrows), minLen)
-		in := make([][]float64, len(e.In))
-		for f := range in {
-			col := make([]float64, len(word))
-			for i, sy := range word {
-				col[i] = lrows[sy][f]
-			}
-			in[f] = col
+		lens := []int{minLen}
+		// a very long series (70 000 values, beyond 2^16) for the count / alignment contract: the first configuration of
+		// every indicator (thorough: every configuration)
+		if prop == "C02" && (c.Thorough() || fmtCfg(cfg) == fmtCfg(e.Cfgs(false)[0])) {
+			lens = append(lens, 70000)
 		}
-		nd := &trieNode{word: word, in: in, run: exec(in)}
-		c.Only = ""
-		ref.Rel, ref.LongSeries = 1e-9*float64(len(word))/10, true
-		visit(nd, nil)
-		ref.Rel, ref.LongSeries = 1e-9, false
-		c.Notes[label+" long series"] = map[string]any{"symbols": len(lrows), "de_bruijn_order": order, "length": len(word), "events": nd.run.Res.Events}
+		for _, want := range lens {
+			word, order := deBruijn(len(lrows), want)
+			if len(word) > want+want/8 {
+				word = word[:want+order] // a prefix of the sequence is long enough; not every window occurs then
+			}
+			in := make([][]float64, len(e.In))
+			for f := range in {
+				col := make([]float64, len(word))
+				for i, sy := range word {
+					col[i] = lrows[sy][f]
+				}
+				in[f] = col
+			}
+			nd := &trieNode{word: word, in: in, run: exec(in)}
+			c.Only = ""
+			ref.Rel, ref.LongSeries = 1e-9*float64(len(word))/10, true
+			visit(nd, nil)
+			ref.Rel, ref.LongSeries = 1e-9, false
+			c.Notes[fmt.Sprintf("%s long series (%d)", label, len(word))] = map[string]any{"symbols": len(lrows), "de_bruijn_order": order, "length": len(word), "events": nd.run.Res.Events}
+		}
 	}
 	c.States += nodes
 	c.Evaluations += nodes
@@ -445,6 +483,20 @@ func indTrieUnit(c *core.Ctx, e *cat.Ind, cfg []float64, prop string) {
 		note["coverage"] = "NOT COVERED: more than half of the positions are exempt"
 	}
 	c.Notes[label] = note
+}
+
+func head(xs []float64, n int) []float64 {
+	if len(xs) > n {
+		return xs[:n]
+	}
+	return xs
+}
+
+func at2(o [][]float64, j int) []float64 {
+	if j < len(o) {
+		return o[j]
+	}
+	return nil
 }
 
 func fmtCols(in [][]float64) string {
@@ -543,6 +595,12 @@ func init() {
 				c04LongStrat(c, e, degenerate(e.Cfgs(th)), true)
 			}})
 		}
+		nl := 5
+		if th {
+			nl = 6
+		}
+		us = append(us, core.Unit{Key: "non-finite:snapshot-adapters", Cost: 10, Run: func(c *core.Ctx) { c04AdapterUnit(c, nl) }})
+		us = append(us, core.Unit{Key: "non-finite:decorators", Cost: 20, Run: func(c *core.Ctx) { c04DecoratorNfUnit(c, nl) }})
 		for i, e := range wrapperEntries() {
 			e := e
 			if th || i%4 == 0 {
@@ -558,6 +616,7 @@ func init() {
 		if tier == "thorough" {
 			ml = 5
 		}
+		us = append(us, core.Unit{Key: "typed-bounded-oscillators", Cost: 20, Run: func(c *core.Ctx) { c15TypedBoundedUnit(c, ml) }})
 		return append(us, core.Unit{Key: "typed-moving-extremes", Cost: 20, Run: func(c *core.Ctx) { c15TypedUnit(c, ml) }})
 	}, Assume: indAssume,
 		Rule: "input trie over valid OHLCV / positive alphabets; oracle: documented range and ordering inequalities at every non-exempt position; non-trivial = nodes with at least one output value; plus MovingMax / MovingMin instantiated with int64, int, int32, int8 and float32 over neighbouring values that collapse in float64 / float32 (all words to length 4 / 5, periods 1..3): min <= value <= max and both equal the brute-force window extremes"})
